@@ -55,8 +55,8 @@ package flate
 //@   modifies state.bits, state.bitsLen, state.input, state.phase, state.writeOverflowLits, state.writeOverflowLen, state.copyOverflowLength, state.copyOverflowDistance, output[*]
 //@   ensures[C03 classify] err == nil || err == errEndInput || err == errOutputOverflow || err == errInvalidSymbol || err == errInvalidLookBack
 //@   ensures[C02 C03 written] written <= finalWritten && finalWritten <= len(output)
-//@   ensures[C02 phase] err == nil ==> (state.bfinal == 1 ==> state.phase == phaseStreamEnd) && (state.bfinal != 1 ==> state.phase == phaseNewBlock)
-//@   ensures[C02 phase-err] state.phase == phaseHeaderDecoded || (state.bfinal == 1 && state.phase == phaseStreamEnd) || (state.bfinal != 1 && state.phase == phaseNewBlock)
+//@   ensures[C02 C05 C08 phase] err == nil ==> (state.bfinal == 1 ==> state.phase == phaseStreamEnd) && (state.bfinal != 1 ==> state.phase == phaseNewBlock)
+//@   ensures[C02 C05 C08 phase-err] state.phase == phaseHeaderDecoded || (state.bfinal == 1 && state.phase == phaseStreamEnd) || (state.bfinal != 1 && state.phase == phaseNewBlock)
 //@   ensures[C02 C03 carry-range] 0 <= state.writeOverflowLen && state.writeOverflowLen <= 3 && 0 <= state.copyOverflowLength && state.copyOverflowLength <= 258 && (state.copyOverflowLength > 0 ==> 1 <= state.copyOverflowDistance && int(state.copyOverflowDistance) <= finalWritten && finalWritten == len(output))
 //@   ensures[C02 carry-only-on-overflow] err == nil || err == errEndInput ==> state.writeOverflowLen == 0 && state.copyOverflowLength == 0
 //@   ensures[C04 end-input-drained] err == errEndInput ==> len(state.input) == 0
@@ -87,7 +87,7 @@ package flate
 //@   ensures[C03 classify] err == nil || err == errEndInput || err == errOutputOverflow || err == errInvalidSymbol || err == errInvalidLookBack || err == errInvalidBlock
 //@   ensures[C02 C03 written] written <= w && w <= len(output)
 //@   ensures[C02 C18 phase] err == nil ==> (state.bfinal == 1 ==> state.phase == phaseStreamEnd) && (state.bfinal != 1 ==> state.phase == phaseNewBlock)
-//@   ensures[C02 phase-err] state.phase == phaseHeaderDecoded || (state.bfinal == 1 && state.phase == phaseStreamEnd) || (state.bfinal != 1 && state.phase == phaseNewBlock)
+//@   ensures[C02 C05 C08 phase-err] state.phase == phaseHeaderDecoded || (state.bfinal == 1 && state.phase == phaseStreamEnd) || (state.bfinal != 1 && state.phase == phaseNewBlock)
 //@   ensures[C02 C03 carry-range] 0 <= state.writeOverflowLen && state.writeOverflowLen <= 3 && 0 <= state.copyOverflowLength && state.copyOverflowLength <= 258 && (state.copyOverflowLength > 0 ==> 1 <= state.copyOverflowDistance && int(state.copyOverflowDistance) <= w && w == len(output))
 //@   ensures[C02 carry-only-on-overflow] err == nil || err == errEndInput ==> state.writeOverflowLen == 0 && state.copyOverflowLength == 0
 //@   ensures[C04 end-input-drained] err == errEndInput ==> len(state.input) == 0
